@@ -152,7 +152,7 @@ func runC06(ctx *core.Ctx) {
 
 		o := spec.GenOpts{Styles: false, NoRawText: cs.Index%2 == 0}
 		return o
-	}, ctx.N(4000, 30000), ctx.N(150, 400), c06Judge)
+	}, ctx.N(4000, 60000), ctx.N(150, 400), c06Judge)
 	piecesWorkload(ctx, ctx.N(4, 5), []string{"comments-spaces", "ugc"}, c06Judge)
 	piecesWorkload(ctx, ctx.N(3, 4), []string{"strict", "pattern-everything", "foreign"}, c06Judge)
 	ctx.MinNontrivial(int64(ctx.N(5000, 100000)))
